@@ -1,7 +1,9 @@
 """C04 — story faults are reported as errors, the runtime never panics; i32 arithmetic wraps
-identically in debug and release builds.  (Arithmetic half: NativeFunctionCall::call and the
-seed arithmetic of RANDOM / LIST_RANDOM / shuffles.  The engine-wide half is added by the
-engine development: see ENGINE_HOOK at the end of run().)"""
+identically in debug and release builds.  Arithmetic half: NativeFunctionCall::call and the
+seed arithmetic of RANDOM / LIST_RANDOM / shuffles.  Engine-wide half (engine_compute, run beside
+the arithmetic half): fault-injected programs under host scripts with and without an error
+handler, in both build profiles, restored (RESET / LOAD) and played in lock-step with a fresh
+instance, and compared with the Coq engine model."""
 import json, os
 import vlib, gen_tables, engine
 from props import native_common as nc
@@ -18,6 +20,15 @@ ASSUMPTIONS = [
     "increment), type-fault operand pairs and RANDOM / LIST_RANDOM / SEED_RANDOM scripts are run through the real "
     "runtime built in debug AND release (overflow-checks off) and compared with the model instantiated for each profile",
     "a Rust panic is caught by inkdrive with catch_unwind and shown as `panic`; process aborts are reported as crashes",
+    "engine-wide half: hand-written and generated programs with injected faults (zero divisors from variables, wrong "
+    "operand types, int used as divert target, missing END / ->-> / return, faulting function; on the program's own paths "
+    "and behind jumps) under host scripts WITH and WITHOUT an error handler (without one the fault comes back as Err from "
+    "cont / continue_maximally / evaluate_function), observers on the assigned globals; debug and release transcripts "
+    "must be panic-free and equal; after RESET (or LOAD of the initial save) probes and the explored play, observer "
+    "notifications included, must equal those of a fresh instance; the RESET scripts also run through the Coq engine "
+    "model (Engine/Run.v), where a notification the model delivers may only be missing when the value did not change",
+    "load_state does not clear errors that were never handed to a handler (same as the reference runtime); such "
+    "restores are not compared",
 ]
 
 ARITH = ["NAdd", "NSubtract", "NMultiply", "NDivide", "NMod"]
@@ -311,25 +322,15 @@ def strict_observer_diff(impl_lines, model_lines, script):
     return None
 
 
-class _Sub:
-    """what the generators use of a ctx, with a random stream of its own (the engine half runs beside the
-    arithmetic half; neither may perturb the other's draws)"""
-    def __init__(self, seed, quick):
-        import random
-        self.rng, self._quick = random.Random(seed), quick
-
-    def quick(self):
-        return self._quick
-
-
-def engine_compute(ctx, exe_d, exe_r, sw):
-    """ctx: only .rng and .quick() are used.  Returns what engine_report needs."""
+def restore_cases(ctx, exe, progs, handlers=(False, True), allow_load=True):
+    """host scripts: setup (with / without an error handler, observers on assigned globals), an explored history,
+    a fault, then RESET (or LOAD of the initial save), probes, exploration; plus the fresh reference per program and
+    handler mode.  Returns (cases, meta, exploration depth).  (Also used by C17 for its no-handler stream.)"""
     quick = ctx.quick()
-    progs = fault_programs(ctx, 16 if quick else 80)
     depth, maxp = (2, 10) if quick else (3, 30)
     cases, meta = [], {}
-    for handler in (False, True):
-        trees = hist.explore_tree(exe_d, progs, depth=3, max_paths=20,
+    for handler in handlers:
+        trees = hist.explore_tree(exe, progs, depth=3, max_paths=20,
                                   setup=hist.setup_ops(progs[0], handler=handler))
         for p in progs:
             t = trees.get(p["id"])
@@ -364,7 +365,7 @@ def engine_compute(ctx, exe_d, exe_r, sw):
             for n, (q, ops, ex, faulty) in enumerate(hs):
                 # load_state keeps errors that were not handed to a handler (as the reference runtime does): the
                 # story stays blocked, so without a handler the way back is RESET
-                load = ctx.rng.random() < 0.3 and (handler or not faulty)
+                load = ctx.rng.random() < 0.3 and (handler or not faulty) and allow_load
                 pre = [["SAVE", "s0"]] if load else []
                 restore = [["LOAD", "s0"]] if load else [["RESET"]]
                 cid = f"{tag}|{n}|{'load' if load else 'reset'}"
@@ -373,29 +374,22 @@ def engine_compute(ctx, exe_d, exe_r, sw):
                                   explore=dict(depth=depth, max_paths=maxp)))
                 meta[cid] = dict(kind="restore", fresh=fid, nprobe=len(probes), handler=handler, load=load,
                                  nhist=len(ops) + len(ex))
-    res_d = {r["id"]: r for r in vlib.run_inkdrive(cases, exe_d)}
-    res_r = {r["id"]: r for r in vlib.run_inkdrive(cases, exe_r)}
+    return cases, meta, depth
+
+
+def restore_lockstep(cases, meta, res):
+    """the restored instance must show the same probe values and play (texts, choices, tags, errors, observer
+    notifications) as the fresh one.  Returns (fails, compared, compared with a fault before the restore)."""
     by_id = {c["id"]: c for c in cases}
     fails, n_checked, n_faulted = [], 0, 0
     for cid, m in meta.items():
         case = by_id[cid]
-        d, r = res_d.get(cid), res_r.get(cid)
-        if not d or not r:
+        d = res.get(cid)
+        if not d or d.get("crash") is not None or d.get("out_of_fuel"):
             continue
-        for prof, x in (("debug", d), ("release", r)):
-            bad = next((l for l in x.get("lines", []) if "=> panic" in l or "summary-panic" in l), None)
-            if x.get("crash") is not None or bad:
-                fails.append(dict(key="engine-panics", case=case, profile=prof, line=bad, crash=x.get("crash")))
-        if d.get("crash") is not None or r.get("crash") is not None or d.get("out_of_fuel") or r.get("out_of_fuel"):
-            continue
-        if [engine.canon_line(l) for l in d["lines"]] != [engine.canon_line(l) for l in r["lines"]]:
-            k = next((i for i, (a, b_) in enumerate(zip(d["lines"], r["lines"])) if engine.canon_line(a) != engine.canon_line(b_)),
-                     min(len(d["lines"]), len(r["lines"])))
-            fails.append(dict(key="engine-debug-release-differ", case=case,
-                              debug=d["lines"][k:k + 1], release=r["lines"][k:k + 1]))
         if m["kind"] != "restore":
             continue
-        f = res_d.get(m["fresh"])
+        f = res.get(m["fresh"])
         if not f or f.get("out_of_fuel") or f.get("crash") is not None:
             continue
         lines = d["lines"]
@@ -417,15 +411,57 @@ def engine_compute(ctx, exe_d, exe_r, sw):
             fails.append(dict(key="restore-after-fault-play-differs-from-fresh", case=case,
                               first_difference=dict(fresh=a[k] if k < len(a) else None,
                                                     restored=b_[k] if k < len(b_) else None)))
+    return fails, n_checked, n_faulted
+
+
+class _Sub:
+    """what the generators use of a ctx, with a random stream of its own (the engine half runs beside the
+    arithmetic half; neither may perturb the other's draws)"""
+    def __init__(self, seed, quick):
+        import random
+        self.rng, self._quick = random.Random(seed), quick
+
+    def quick(self):
+        return self._quick
+
+
+def engine_compute(ctx, exe_d, exe_r, sw):
+    """ctx: only .rng and .quick() are used.  Returns what engine_report needs."""
+    import time
+    t0 = time.time()
+    quick = ctx.quick()
+    progs = fault_programs(ctx, 16 if quick else 80)
+    cases, meta, depth = restore_cases(ctx, exe_d, progs)
+    res_d = {r["id"]: r for r in vlib.run_inkdrive(cases, exe_d)}
+    res_r = {r["id"]: r for r in vlib.run_inkdrive(cases, exe_r)}
+    by_id = {c["id"]: c for c in cases}
+    fails, n_checked, n_faulted = restore_lockstep(cases, meta, res_d)
+    for cid, m in meta.items():
+        case = by_id[cid]
+        d, r = res_d.get(cid), res_r.get(cid)
+        if not d or not r:
+            continue
+        for prof, x in (("debug", d), ("release", r)):
+            bad = next((l for l in x.get("lines", []) if "=> panic" in l or "summary-panic" in l), None)
+            if x.get("crash") is not None or bad:
+                fails.append(dict(key="engine-panics", case=case, profile=prof, line=bad, crash=x.get("crash")))
+        if d.get("crash") is not None or r.get("crash") is not None or d.get("out_of_fuel") or r.get("out_of_fuel"):
+            continue
+        if [engine.canon_line(l) for l in d["lines"]] != [engine.canon_line(l) for l in r["lines"]]:
+            k = next((i for i, (a, b_) in enumerate(zip(d["lines"], r["lines"])) if engine.canon_line(a) != engine.canon_line(b_)),
+                     min(len(d["lines"]), len(r["lines"])))
+            fails.append(dict(key="engine-debug-release-differ", case=case,
+                              debug=d["lines"][k:k + 1], release=r["lines"][k:k + 1]))
     # ---- correspondence with the engine model (RESET only: the model has no save/load ops)
     cand = [c for c in cases if meta[c["id"]]["kind"] == "restore" and not meta[c["id"]]["load"]]
     ctx.rng.shuffle(cand)
     cand.sort(key=lambda c: meta[c["id"]]["handler"])          # scripts without an error handler first
-    nm = 36 if quick else 400
+    nm = 36 if quick else 240
     half = cand[: (2 * nm) // 3] + cand[len(cand) - nm // 3:] if len(cand) > nm else cand
     mdepth = dict(depth=1, max_paths=4) if quick else dict(depth=2, max_paths=10)
     mcases = [dict(c, id="m:" + c["id"], explore=mdepth) for c in half]
-    cres = engine.compare(mcases, exe_d, sw, shard=max(1, (len(mcases) + 13) // 14))
+    nsh = 6 if quick else 14          # quick: few coqc runs, loading the model dominates
+    cres = engine.compare(mcases, exe_d, sw, shard=max(1, (len(mcases) + nsh - 1) // nsh))
     mism, strict, agree = [], [], 0
     for c, r in zip(mcases, cres):
         if r["status"] in ("mismatch", "model-error"):
@@ -436,7 +472,8 @@ def engine_compute(ctx, exe_d, exe_r, sw):
             if sd:
                 strict.append(dict(case=c, first_diff=sd))
     return dict(fails=fails, mism=mism, strict=strict, agree=agree, n_cases=len(cases), n_checked=n_checked,
-                n_faulted=n_faulted, n_model=len(mcases), n_progs=len(progs), depth=depth)
+                n_faulted=n_faulted, n_model=len(mcases), n_progs=len(progs), depth=depth,
+                seconds=round(time.time() - t0, 1))
 
 
 def engine_report(ctx, res):
@@ -449,7 +486,7 @@ def engine_report(ctx, res):
     cov["correspondence_mismatches"] = cov.get("correspondence_mismatches", 0) + len(mism) + len(strict)
     cov["engine_half"] = dict(
         programs=res['n_progs'], cases=res['n_cases'], restore_cases_checked=n_checked, with_fault_before_restore=n_faulted,
-        model_cases=res['n_model'], model_agree=agree,
+        model_cases=res['n_model'], model_agree=agree, seconds_beside_arithmetic_half=res['seconds'],
         rule="hand-written and generated programs with injected faults (zero divisors from variables, wrong operand "
              "types, int as divert target, missing END / ->-> / return value, faulting function) on their own paths and "
              "behind jumps; host scripts WITH and WITHOUT an error handler, observers on the assigned globals; explored "
@@ -462,6 +499,8 @@ def engine_report(ctx, res):
         if f["key"] in seen:
             continue
         seen.add(f["key"])
+        same = [g["case"]["id"] for g in fails if g["key"] == f["key"]]
+        f = dict(f, failing_cases_of_this_class=len(same), other_failing_case_ids=same[1:13])
         ctx.violation(f"{f['key']}: {json.dumps({k: v for k, v in f.items() if k not in ('key', 'case')})[:300]}", f, key=f["key"])
     if not fails and not ctx.violations:
         if mism:
@@ -625,6 +664,27 @@ def run(ctx):
 def replay(ctx, payload):
     r = payload.get("replay", {})
     n = 0
+    if r.get("case"):
+        # engine-wide half: the failing host script, in both profiles, beside its fresh reference
+        c = {k: v for k, v in r["case"].items() if k != "want_json"}
+        c["id"] = c["id"][2:] if c["id"].startswith("m:") else c["id"]
+        k = next((i for i, op in enumerate(c["script"]) if op[0] in ("CONT", "CONT_MAX", "PATH", "EVAL", "CHOOSE", "SAVE")),
+                 len(c["script"]))
+        nprobe = sum(1 for op in c["script"] if op[0] in ("GETVAR", "VISITS"))
+        fresh = dict(c, id="fresh", script=c["script"][:k] + c["script"][len(c["script"]) - nprobe:])
+        cases, meta = [fresh, c], {"fresh": dict(kind="fresh", nprobe=nprobe),
+                                   c["id"]: dict(kind="restore", fresh="fresh", nprobe=nprobe)}
+        for exe in (vlib.build_harness(), vlib.build_harness(release=True)):
+            res = {x["id"]: x for x in vlib.run_inkdrive(cases, exe)}
+            for cid in ("fresh", c["id"]):
+                print("---", cid, exe)
+                print("\n".join(res[cid].get("lines", [])))
+                if any("=> panic" in l or "summary-panic" in l for l in res[cid].get("lines", [])) or res[cid].get("crash") is not None:
+                    ctx.violation("replayed case panics", r, key="engine-panics")
+            for f in restore_lockstep(cases, meta, res)[0]:
+                ctx.violation(f"replayed case: {f['key']}", f, key=f["key"])
+        ctx.coverage.update(dict(evaluations=4, distinct_nontrivial=1, obligations=0, discharged=0))
+        return
     if r.get("op"):
         args = [tuple(tuple(tuple(z) if isinstance(z, list) else z for z in y) if isinstance(y, list) else y for y in a)
                 for a in r["args"]]
